@@ -627,10 +627,15 @@ def _execute(case, exclude):
     for t in bp.assemblies.values():
         M.templates.add(id(t))
         M.templates.update(id(b) for b in t)
-    if len(M.where) != len(spec["cells"]) or core._trackAssems != track or [str(f) for f in core.stationaryBlockFlagsList] != [
-        "Flags." + f for f in flags
-    ]:
-        raise AssertionError("harness: reactor not built as specified (%d assemblies, flags %r)" % (len(M.where), core.stationaryBlockFlagsList))
+    if len(M.where) != len(spec["cells"]):
+        raise AssertionError("harness: %d assemblies built for %d cells" % (len(M.where), len(spec["cells"])))
+    # What the core designates as stationary is behaviour of the code under test ("Blocks with these flags will not move in
+    # moves"): the model takes the designation from the settings the case specified, so a core that designates something
+    # else is also reported by the ordinary oracle after the first swap (blocks not designated stationary move with
+    # their assembly); the direct comparison names the cause.
+    designated = sorted(str(f).replace("Flags.", "") for f in core.stationaryBlockFlagsList)
+    out.check(designated == sorted(flags), "stationary/designation-differs-from-settings",
+              lambda: "stationaryBlockFlags %r in the settings, the core designates %r" % (list(flags), designated))
 
     out.label("geom:" + spec["geom"], "sym:" + spec["symmetry"].split()[0], "track:" + ("on" if track else "off"),
               "stationary:" + case["stationary"], "sfp:" + ("explicit" if spec.get("sfp") else "default"),
